@@ -20,7 +20,7 @@ TIME_BUDGET = {"quick": 90, "thorough": 900}
 FLOORS = {"quick": {"pairs": 800, "steps_compared": 3000, "bytes_compared": 1000000, "pairs_with_exception": 150, "tcp_pairs": 2, "distinct": 500},
           "thorough": {"pairs": 15000, "steps_compared": 60000, "pairs_with_exception": 3000, "tcp_pairs": 8}}
 
-PERTS = ["none", "none", "fault", "stall", "cap", "corrupt", "auth", "disconnected", "eofstall", "syncfail", "large", "slowlink", "longpath"]
+PERTS = ["none", "none", "fault", "stall", "cap", "corrupt", "auth", "disconnected", "eofstall", "syncfail", "large", "slowlink", "longpath", "closefault", "slowpush"]
 
 
 def gen_cases(tier, seed):
@@ -58,6 +58,8 @@ def one_side(impl, case, sc, pert):
     if pert == "cap":
         cap = rng.choice([1, 24, 25, 100, 4095])
         kw["writecap"] = cap
+    if pert == "slowpush":
+        kw["call_cost"] = rng.choice([0.05, 0.3])
     if pert == "slowlink":
         kw["call_cost"] = rng.choice([0.01, 0.05])     # virtual seconds per transport call: whole-command limits (timeout_s) expire while data still flows
     sess = gen.make_session(impl, dims, case["seed"], connect=False, budget=300000, **kw)
@@ -73,6 +75,16 @@ def one_side(impl, case, sc, pert):
             sim.auth = simdev.AuthPlan(require=True, verify=(lambda tok, sig: accept not in (None, "pub") and sig == keys[accept].Sign(tok)),
                                        accept_pubkey=(accept == "pub"), bad_challenge_at=rng.choice([None, None, 0, 1]), strays=rng.choice([[], [("OKAY", 3, 4, b"")]]))
             ckw = {"rsa_keys": keys or None, "auth_timeout_s": 0.5, "read_timeout_s": 1.0, "transport_timeout_s": 1.0}
+        if pert == "closefault":
+            nclose = [0, rng.choice([1, 1, 2])]
+
+            def cf(idx, call_kind, core):
+                if call_kind == "close":
+                    nclose[0] += 1
+                    if nclose[0] > nclose[1]:        # the first close belongs to connect(); fail a later one
+                        return transports.Fault("oserror")
+                return None
+            sess.core.faults = cf
         if pert == "fault":
             k = rng.randint(0, 120)
             kind = rng.choice(["timeout", "reset", "oserror", "eof"])
@@ -127,7 +139,16 @@ def one_side(impl, case, sc, pert):
                 return bytes(b)
             sim.before_emit = before_emit
         tkw = {}
+        close_at = rng.randint(0, max(0, len(sc["steps"]) - 1)) if pert == "closefault" else None
         for i, step in enumerate(sc["steps"]):
+            if close_at == i:
+                oc = sess.call("close")
+                rec["outs"].append(("close", oc.kind, oc.value if oc.ok else oc.exc_name(), []))
+                rec["avail"].append(sess.dev.available)
+                if rng.random() < 0.4:
+                    oc = sess.call("connect")
+                    rec["outs"].append(("connect", oc.kind, oc.value if oc.ok else oc.exc_name(), []))
+                    rec["avail"].append(sess.dev.available)
             if pert == "stall":
                 # small timeouts so that a silent device costs little virtual time
                 step = dict(step)
@@ -263,7 +284,10 @@ def run_tcp(case, stats):
         sim.sync_plan.files[b"/t/src"] = scen.blob(case["seed"] + "src", 150000)
         sim.sync_plan.stats[b"/t/src"] = (0o100644, 150000, 7)
         sim.sync_plan.lists[b"/t"] = [(1, 2, 3, b"src"), (0o40755, 0, 9, b"d\xff")]
-        sim.sync_plan.split_mode = "random"
+        # (fixed-size splitting: over a real socket the moment at which the peer consumes its random numbers depends on
+        #  how the kernel chunks the host's bytes, and the host's OKAY count follows the number of device WRTEs)
+        sim.sync_plan.split_mode = "list"
+        sim.sync_plan.split_sizes = [3000, 17, 65536]
         peer = tcp_peer.TcpPeer(sim, write_chunk=3000)
         try:
             results[impl] = tcp_session(impl, peer.port, case["maxdata"], case["seed"])
@@ -304,6 +328,7 @@ def run_tcpraw(case, stats):
     viol = []
     got = {}
     peer_got = {}
+    eof = {}
     for impl in ("sync", "async"):
         ls = socket.socket()
         ls.bind(("127.0.0.1", 0))
@@ -350,6 +375,14 @@ def run_tcpraw(case, stats):
                     k = t.bulk_write(left, 5.0)
                     left = left[k:]
             th.join(5)
+            # the peer has closed its end: what do further reads give?
+            after = []
+            for _ in range(3):
+                try:
+                    after.append(("ret", bytes(t.bulk_read(10, 0.3))))
+                except Exception as e:  # noqa
+                    after.append(("exc", type(e).__name__))
+            eof[impl] = after
             t.close()
         else:
             from adb_shell.transport.tcp_transport_async import TcpTransportAsync
@@ -369,7 +402,17 @@ def run_tcpraw(case, stats):
                     k = await t.bulk_write(o, 5.0)
                     if k != len(o):
                         viol.append({"mechanism": "tcp-write-count", "detail": "TcpTransportAsync.bulk_write returned %r for %d bytes" % (k, len(o))})
-                await asyncio.sleep(0.05)
+                for _ in range(100):
+                    if not th.is_alive():
+                        break
+                    await asyncio.sleep(0.02)
+                after = []
+                for _ in range(3):
+                    try:
+                        after.append(("ret", bytes(await t.bulk_read(10, 0.3))))
+                    except Exception as e:  # noqa
+                        after.append(("exc", type(e).__name__))
+                eof[impl] = after
                 await t.close()
             loop = asyncio.new_event_loop()
             try:
@@ -385,6 +428,8 @@ def run_tcpraw(case, stats):
     if got["sync"][0] != got["async"][0] or got["sync"][0] != stream:
         viol.append({"mechanism": "tcp-read-differs", "detail": "bare transports: sync read %d bytes, async %d, peer sent %d; equal to the peer's stream: %s/%s" % (
             len(got["sync"][0]), len(got["async"][0]), len(stream), got["sync"][0] == stream, got["async"][0] == stream)})
+    if eof.get("sync") != eof.get("async"):
+        viol.append({"mechanism": "tcp-eof-differs", "detail": "after the peer closed the connection, three more reads give %r on TcpTransport and %r on TcpTransportAsync" % (eof.get("sync"), eof.get("async"))})
     if not (got["sync"][1] and got["async"][1]):
         viol.append({"mechanism": "tcp-read-size", "detail": "a bulk_read returned more than requested (sync ok=%s async ok=%s)" % (got["sync"][1], got["async"][1])})
     if peer_got["sync"] != peer_got["async"] or peer_got["sync"] != b"".join(outbound):
@@ -404,9 +449,14 @@ def run_case(case):
     rng = gen.rng_for("C16", case["seed"])
     pert = case["pert"]
     sc = scen.gen_scenario(rng, nsteps=rng.randint(1, 6))
-    for st in sc["steps"]:
-        if st["op"] == "push" and st.get("mtime") == 0:
-            st["mtime"] = 4
+    if pert == "slowpush":
+        # the default mtime (0 = "now") is resolved while virtual time passes: both twins must stamp each file at the same moment
+        sc["steps"] = [{"op": "push", "path": "/sp%d" % i, "size": rng.choice([10, 3000, 9000]), "seed": case["seed"] + str(i), "src": "bytesio", "mode": 0o100644, "mtime": 0, "cb": None} for i in range(rng.randint(1, 3))]
+        sc["dims"]["noise"] = []
+    else:
+        for st in sc["steps"]:
+            if st["op"] == "push" and st.get("mtime") == 0:
+                st["mtime"] = 4
     if pert == "fit":
         sc = {"dims": {"maxdata": case["maxdata"], "remote": "random", "id_start": 0, "frag": "whole", "empty_rate": 0.0, "noise": []},
               "steps": [{"op": "push", "path": rng.choice(["/d", "/data", "/sdcard/x.bin"]), "size": case["size"], "seed": case["seed"], "src": "bytesio", "mode": 0o100644, "mtime": 6, "cb": None}]}
